@@ -710,6 +710,40 @@ MODES["universe"] = mode_universe
 MODES["inspect"] = mode_inspect
 MODES["charset"] = mode_charset
 MODES["dumpvis"] = mode_dumpvis
+
+
+def mode_visfile(req):
+    """C13 on ONE path that is rewritten between the calls (what a user inspecting successive versions of a model file does):
+    after every dump the file is audited and visualized through the path (str and Path), with no trusted list and with the
+    reported one; the rows must describe the file as it is NOW"""
+    import shutil
+    import tempfile
+    import skops.io as sio
+    from values import build
+    d = tempfile.mkdtemp(prefix="c13file_")
+    p = os.path.join(d, "model.skops")
+    out = []
+    try:
+        for spec in req:
+            sio.dump(build(spec), p)
+            gut = sio.get_untrusted_types(file=p)
+            rec = {"gut": gut, "views": {}}
+            for pname, path in (("str", p), ("Path", Path(p))):
+                for tname, T in (("none", None), ("reported", gut)):
+                    rows = []
+                    try:
+                        sio.visualize(path, trusted=T, show="all", sink=lambda nodes, show, **kw: rows.extend(nodes))
+                        rec["views"][f"{pname}/{tname}"] = {"root_safe": bool(rows[0].is_safe), "n": len(rows),
+                                                          "unsafe_vals": sorted({r.val for r in rows if not r.is_self_safe})}
+                    except Exception as e:  # noqa
+                        rec["views"][f"{pname}/{tname}"] = {"raises": type(e).__name__ + ":" + str(e)[:80]}
+            out.append(rec)
+    finally:
+        shutil.rmtree(d, ignore_errors=True)
+    return out
+
+
+MODES["visfile"] = mode_visfile
 MODES["resolve_table"] = mode_resolve_table
 
 
